@@ -1,1 +1,34 @@
-From ZB Require Import Api.Api.
+(* C14 - blocking requests are mutually exclusive and served first-come first-served. *)
+From Coq Require Import NArith List Bool.
+From ZB Require Import Api.Api Api.ApiProofs.
+Import ListNotations.
+Open Scope N_scope.
+
+(* For every event history the trace obeys the lock discipline (same predicate as C11; the clauses used here):
+   - a data frame of a request marked blocking is written only while that request holds the blocking lock
+     (frag_ok: negb blocking || holds (a_bh a) rid);
+   - the blocking lock is acquired directly only when it is free and nobody waits (GBlkAcq), a request waits
+     only when it is taken (GBlkWait), and it is handed over to the head of the FIFO queue when - and only
+     when - its holder releases it (GBlkRel), i.e. when the holder's request ended: first-come first-served;
+   - a cancelled waiter leaves the queue (GBlkDrop). *)
+Theorem C14_blocking_lock_discipline : forall evs, discipline (log (run_events evs)) = true.
+Proof. exact discipline_always. Qed.
+Print Assumptions C14_blocking_lock_discipline.
+
+Theorem C14_blocking_write_needs_the_lock : forall l1 l2 r k q, discipline (l2 ++ OW r k q :: l1) = true ->
+  exists a, scan l1 = Some a /\ frag_ok a r k = true.
+Proof. exact discipline_at_write. Qed.
+Print Assumptions C14_blocking_write_needs_the_lock.
+
+(* the invariant: the trace's abstract lock state IS the state's lock state *)
+Theorem C14_invariant : forall evs, scan (log (run_events evs)) = Some (abs_of (run_events evs)).
+Proof. exact reachable_inv. Qed.
+Print Assumptions C14_invariant.
+
+(* non-vacuity: two blocking requests and a non-blocking one: the second blocking request's frame appears only after
+   the first one ended; the non-blocking one does not wait for the first one's response *)
+Example C14_instance :
+  filter (fun o => match o with OW _ _ _ | OE _ _ => true | _ => false end)
+         (rev (log (run_events [EIssue 1 10 true 1 5000; EIssue 2 11 true 1 5000; EAck 0; EIssue 3 12 false 1 5000; EAck 1; ERsp 10; EAck 2])))
+  = [OW 1 0 0; OW 3 0 1; OE 1 ORsp; OW 2 0 2].
+Proof. vm_compute. reflexivity. Qed.
